@@ -73,6 +73,7 @@ type pathState struct {
 	assumes      int
 	hashApps     map[string][]*hashApp
 	hashSymbolic map[string]bool
+	hashMemo     map[string]*hashApp
 	funcsSeen    map[string]bool
 	stubsSeen    map[string]bool
 	notes        []string
